@@ -21,7 +21,7 @@ def proof_side(ctx, prop, extra_targets=()):
     res = vlib.lean_build(["celer_model_" + prop.lower(), "CelerVerif.Props." + prop]
                           + list(extra_targets))
     broken = []
-    for e in res["translate_errors"]:
+    for e in vlib.translate.errors_for(prop, res["translate_errors"]):
         broken.append("translator: " + e)
     if not res["ok"]:
         names = failing_theorems(res)
